@@ -699,6 +699,9 @@ def gen_recv_cases(chk):
         [(1, frame_of((2, None, [], 0, 0, b'z')) * 100)],
         [(1, frame_of((2, None, [], 0, 0, b'z')) * 101)],                # more than scapy's list limit: frame dropped
         [(1, seg(3, 9, 0, b'ab', [])), (1, seg(4, 9, 1, b'cd', []))],     # no hints at all
+        [(1, frame_of((1, None, [], 0, 0, b'\x00\x00')) + seg(3, 9, 0, b'ab')),
+         (1, frame_of((1, None, [], 0, 0, b'')) + seg(4, 9, 1, b'cd') + frame_of((1, None, [], 0, 0, b'\x00')))],   # definite padding first
+        [(1, frame_of((1, None, [], 0, 0, b'pad')) + frame_of((2, None, [], 0, 0, b'bundle')))],
         [(1, bytes.fromhex('0300000700000001000000'))],                  # transfer header too short
         [(1, b'')], [(1, b'\x00\x00')],
     ]
@@ -713,6 +716,130 @@ def gen_recv_cases(chk):
             arrival.append((rng.choice([1, 1, 2]), frame))
         cases.append(arrival)
     return cases
+
+
+# ----------------------------------------------------------------------------------------------
+# independent BTP-U encoder (from the format description) and padded re-framings of a transfer
+
+def spec_encode_msg(mtype, hints, body, flags=None):
+    ''' One message: type, flags(4)|length(20), chained hints, payload. '''
+    hbytes = b''
+    for (pos, (htype, hdata)) in enumerate(hints):
+        more = 1 if pos < len(hints) - 1 else 0
+        hbytes += bytes([(htype << 1) | more, len(hdata)]) + bytes(hdata)
+    if flags is None:
+        flags = 8 if hints else 0
+    length = len(hbytes) + len(body)
+    if length >= LEN_MOD:
+        raise Bad('message too long for the 20-bit length field')
+    return bytes([mtype]) + ((flags << 20) | length).to_bytes(3, 'big') + hbytes + bytes(body)
+
+
+def spec_padding(prng):
+    ''' A definite Padding message (type 1) of 0..6 octets, zeros or arbitrary content. '''
+    size = prng.randrange(0, 7)
+    return spec_encode_msg(1, [], bytes(size) if prng.random() < 0.7 else prng.randbytes(size))
+
+
+LAYOUTS = ('plain', 'pad-before', 'pad-after', 'zero-tail', 'pad-around-tail', 'mixed', 'pairs-pad-between',
+           'two-transfers')
+
+
+def reencode(frame):
+    ''' The data message of one of the sender's frames, through the independent parser and encoder. '''
+    (msgs, _pad) = spec_parse_frame(frame)
+    if len(msgs) != 1:
+        raise Bad('sender frame is not one message')
+    (mtype, flags, hints, body) = msgs[0]
+    return spec_encode_msg(mtype, hints, body, flags)
+
+
+def frame_layout(msg, layout, prng):
+    if layout == 'mixed':
+        layout = prng.choice(LAYOUTS[:5])
+    if layout == 'plain':
+        return msg
+    if layout == 'pad-before':
+        return spec_padding(prng) + msg
+    if layout == 'pad-after':
+        return msg + spec_padding(prng)
+    if layout == 'zero-tail':
+        return msg + bytes(prng.randrange(1, 6))
+    if layout == 'pad-around-tail':
+        return spec_padding(prng) + msg + spec_padding(prng) + bytes(prng.randrange(1, 4))
+    raise ValueError(layout)
+
+
+def compose_padded(mtu, xid, seed, length, order, layout, rseed):
+    ''' The arrival sequence for one padded re-framing of a transfer.
+    :return: (arrival [(conv, frame)], bundles [(data, index of the frame that completes it)]) or None
+             when the sender's frames are not one message each / the order is not a permutation of them. '''
+    import random
+    prng = random.Random(rseed)
+    data = gdata(seed, length)
+    (frames, _term) = real_send(mtu, xid, data)
+    if sorted(order) != list(range(len(frames))):
+        return None
+    try:
+        msgs = [reencode(frames[pos]) for pos in order]
+    except Bad:
+        return None
+    if layout in LAYOUTS[:6]:
+        arrival = [(1, frame_layout(msg, layout, prng)) for msg in msgs]
+        return (arrival, [(data, len(arrival) - 1)])
+    if layout == 'pairs-pad-between':
+        arrival = []
+        for pos in range(0, len(msgs), 2):
+            group = msgs[pos:pos + 2]
+            frame = group[0] if len(group) == 1 else group[0] + spec_padding(prng) + group[1]
+            if prng.random() < 0.5:
+                frame = spec_padding(prng) + frame
+            arrival.append((1, frame))
+        return (arrival, [(data, len(arrival) - 1)])
+    if layout == 'two-transfers':
+        xid2 = xid ^ 1
+        data2 = gdata(seed + 1, length)
+        (frames2, _term2) = real_send(mtu, xid2, data2)
+        order2 = list(range(len(frames2)))
+        prng.shuffle(order2)
+        try:
+            msgs2 = [reencode(frames2[pos]) for pos in order2]
+        except Bad:
+            return None
+        arrival = []
+        for pos in range(max(len(msgs), len(msgs2))):
+            parts = []
+            if pos < len(msgs):
+                parts.append(msgs[pos])
+            if pos < len(msgs2):
+                parts.append(msgs2[pos])
+            frame = spec_padding(prng) + spec_padding(prng).join(parts) + bytes(prng.randrange(0, 3))
+            arrival.append((1, frame))
+        return (arrival, [(data, len(msgs) - 1), (data2, len(msgs2) - 1)])
+    raise ValueError(layout)
+
+
+def oracle_padded(bundles, obs):
+    ''' Each segment of each transfer arrived exactly once (whatever padding
+    surrounds it, whatever else shares its frame): each bundle is queued
+    exactly once, not before the frame carrying its last missing segment. '''
+    if any(raised for (_n, raised) in obs['trace']):
+        return 'exception escaped the receive function'
+    counts = [nsig for (nsig, _r) in obs['trace']]
+    want = [sum(1 for (_d, done) in bundles if done <= pos) for pos in range(len(counts))]
+    for (pos, (got, exp)) in enumerate(zip(counts, want)):
+        if got > exp:
+            return 'bundle queued before every segment had arrived (signal counts %s, expected %s)' % (counts, want)
+        if got < exp:
+            return 'bundle not queued although every segment has arrived (signal counts %s, expected %s)' % (counts, want)
+    if sorted(got for (_b, got) in obs['queue']) != sorted(data for (data, _done) in bundles):
+        return 'queued data is not exactly the bundle(s) sent (%s vs %s octets)' % (
+            [len(got) for (_b, got) in obs['queue']], [len(data) for (data, _done) in bundles])
+    if sorted(sig[1] for sig in obs['signals']) != sorted(len(data) for (data, _done) in bundles):
+        return 'recv_bundle_finished lengths %s do not describe the queued bundle(s)' % ([sig[1] for sig in obs['signals']],)
+    if obs['left']:
+        return 'popped bundle still listed in the queue'
+    return None
 
 
 # ----------------------------------------------------------------------------------------------
@@ -771,6 +898,15 @@ class Runner(object):
             self.chk.fail('C20 / recv / ' + why.split('(')[0].strip()[:70],
                           'mtu=%d len=%d order=%s: %s' % (mtu, length, order, why),
                           dict(suite='xfer', case=[mtu, xid, seed, length, order]))
+        return why
+
+    def check_padded(self, case, bundles, obs):
+        (mtu, xid, seed, length, order, layout, rseed) = case
+        why = oracle_padded(bundles, obs)
+        if why:
+            self.chk.fail('C20 / recv-padded / %s / %s' % (layout, why.split('(')[0].strip()[:60]),
+                          'mtu=%d len=%d order=%s layout=%s: %s' % (mtu, length, order, layout, why),
+                          dict(suite='padxfer', case=[mtu, xid, seed, length, list(order), layout, rseed]))
         return why
 
     def impl_xfer(self, case):
@@ -872,6 +1008,8 @@ def run_all(chk):
     # ---- (c) receive: this sender's segments in every order
     xfer_cases = []
     xfer_impl = []
+    pad_cases = []
+    pad_impl = []
     for (mtu, xid, seed, length, nperm) in gen_xfer_specs(chk):
         data = gdata(seed, length)
         (frames, term) = real_send(mtu, xid, data)
@@ -887,6 +1025,22 @@ def run_all(chk):
                      sample=samp(chk, 6, dict(suite='recv', mtu=mtu, length=length, order=order,
                                               signal_counts=[n for (n, _r) in obs['trace']])) if nseg == 4 and order[0] == 3 else None)
             chk.count('recv_segments', nseg if nseg <= 5 else '>5')
+            # the same arrival order, re-framed by the independent encoder with padding in every position
+            for layout in LAYOUTS[1:]:
+                pcase = (mtu, xid, seed, length, order, layout, rng.randrange(2 ** 31))
+                comp = compose_padded(*pcase)
+                if comp is None:
+                    continue
+                (arrival, bundles) = comp
+                pobs = real_recv(arrival)
+                run.check_padded(pcase, bundles, pobs)
+                pad_cases.append((pcase, arrival))
+                pad_impl.append(pobs)
+                chk.case(('padxfer',) + pcase[:4] + (tuple(order), layout, pcase[6]), nontrivial=True,
+                         sample=samp(chk, 8, dict(suite='recv-padded', mtu=mtu, length=length, order=order, layout=layout,
+                                                  frames=[frm.hex()[:64] for (_c, frm) in arrival][:3],
+                                                  signal_counts=[n for (n, _r) in pobs['trace']])) if nseg == 3 and layout in ('pad-before', 'two-transfers') else None)
+                chk.count('recv_padded_layout', layout)
     # peer-crafted arrivals: quirks of the receive path (no verdict, correspondence only)
     recv_cases = gen_recv_cases(chk)
     recv_impl = []
@@ -1010,6 +1164,30 @@ def run_all(chk):
         if bool(m_same) != (len(obs['queue']) == 1 and obs['queue'][0][1] == gdata(case[2], case[3])):
             run.note_mismatch('recv', 'order=%s: model and real disagree on "queued = bundle"' % (case[4],))
     lap('xfer')
+    # padded re-framings: the model on a spread sample (the oracle has seen all of them in phase 1)
+    budget = 420 if chk.quick() else 6000
+    stride = max(1, -(-len(pad_cases) // budget))
+    if stride % len(LAYOUTS[1:]) == 0:
+        stride += 1   # keep every layout in the sample
+    picked = [pos for pos in range(len(pad_cases)) if pos % stride == 0 and sum(len(f) for (_c, f) in pad_cases[pos][1]) <= 6000]
+    model = chk.coq_eval('padxfer', ['Model.Btpu'], [c_recv(pad_cases[pos][1]) for pos in picked], 'run_recv',
+                         chunk=max(20, len(picked) // 14 + 1))
+    chk.count('recv_padded_model_compared', len(picked))
+    for (pos, mod) in zip(picked, model):
+        (pcase, arrival) = pad_cases[pos]
+        obs = pad_impl[pos]
+        (m_trace, (m_prog, m_queue, m_signals, m_timers)) = mod
+        real = ([(n, bool(r)) for (n, r) in obs['trace']], [(b, d) for (b, d) in obs['queue']],
+                [(s[0], s[1]) for s in obs['signals']], obs['timers'])
+        modl = ([(n, bool(r)) for (n, r) in m_trace], [(b, bytes(d)) for (b, d) in m_queue],
+                [tuple(s) for s in m_signals], m_timers)
+        if real != modl:
+            run.note_mismatch('recv', 'padded %s: model (counts %s, %d queued) vs real (counts %s, %d queued)' % (
+                list(pcase[:4]) + [pcase[4], pcase[5], pcase[6]], [n for (n, _r) in modl[0]], len(modl[1]),
+                [n for (n, _r) in real[0]], len(real[1])))
+        elif obs['progress'] is not None and lst(obs['progress']) != sorted(lst(m_prog)):
+            run.note_mismatch('recv', 'padded %s: transfers in progress differ' % (list(pcase[:4]) + [pcase[5]],))
+    lap('padxfer')
     model = chk.coq_eval('recv', ['Model.Btpu'], [c_recv(arr) for arr in recv_cases], 'run_recv', chunk=40)
     for (arrival, obs, mod) in zip(recv_cases, recv_impl, model):
         (m_trace, (m_prog, m_queue, m_signals, m_timers)) = mod
@@ -1045,6 +1223,11 @@ def search_more(chk):
                 obs = real_recv([(1, frames[pos]) for pos in order])
                 if run.check_xfer((mtu, xid, seed, length, order), obs):
                     found = True
+                for layout in LAYOUTS[1:]:
+                    pcase = (mtu, xid, seed, length, order, layout, chk.rng.randrange(2 ** 31))
+                    comp = compose_padded(*pcase)
+                    if comp is not None and run.check_padded(pcase, comp[1], real_recv(comp[0])):
+                        found = True
         for (pos, (msgs, pad)) in enumerate(gen_codec_cases(chk)):
             impl = run.impl_codec(msgs, pad)
             if run.check_codec(msgs, pad, impl, codec_replay(msgs, pad)):
@@ -1075,6 +1258,18 @@ def replay(chk, path):
         print('replay recv mtu=%d len=%d order=%s -> signal counts %s, queue %s' % (
             case[0], case[3], case[4], [n for (n, _r) in obs['trace']], [len(d) for (_b, d) in obs['queue']]))
         why = run.check_xfer(case, obs)
+    elif suite == 'padxfer':
+        case = obj['case']
+        case = (case[0], case[1], case[2], case[3], list(case[4]), case[5], case[6])
+        comp = compose_padded(*case)
+        if comp is None:
+            print('replay recv-padded: the sender no longer produces one message per frame for this input; no judgement')
+        else:
+            obs = real_recv(comp[0])
+            print('replay recv-padded mtu=%d len=%d order=%s layout=%s frames=%s -> signal counts %s, queue %s' % (
+                case[0], case[3], case[4], case[5], [frm.hex() for (_c, frm) in comp[0]][:4],
+                [n for (n, _r) in obs['trace']], [len(d) for (_b, d) in obs['queue']]))
+            why = run.check_padded(case, comp[1], obs)
     elif suite == 'codec':
         msgs = [(m[0], m[1], [(h[0], bytes.fromhex(h[1])) for h in m[2]], m[3], m[4],
                  gen_bytes(m[5][1], m[5][2]) if isinstance(m[5], list) else bytes.fromhex(m[5])) for m in obj['msgs']]
@@ -1138,7 +1333,7 @@ def main():
               'and derived flags, zero padding; decode: fixed quirk corpus + truncations/bit flips/random octets of those '
               'encodings; send: grid of MTU x bundle length at every boundary of the fit test (mtu-6..mtu+1) and of the '
               'segment size (k*(mtu-18)-1,0,+1), MTU none, random; recv: all permutations of the arrival order for 2-5 '
-              'segments, random permutations for 6-33, plus peer-crafted arrivals. Non-trivial: codec frame with more than '
+              'segments, random permutations for 6-33, each of them also re-framed by an independent encoder with a definite Padding message before / after / around the data message, a zero-octet tail, two segments per frame with padding between, and a second transfer sharing every frame; plus peer-crafted arrivals. Non-trivial: codec frame with more than '
               'one message or hints or padding; decode input that is a valid frame; send case with >= 2 frames; recv case '
               'whose arrival order is not the index order (or more than one arrival for crafted ones). Distinct by input.'),
         extra_cov=dict(model='coq/Model/Btpu.v', gen='coq/Gen/BtpuBudget.v (translate/targets/btpubudget.py)',
